@@ -52,3 +52,39 @@ pub fn load_fits_residual() {
     assert!(m.bus().memory()[0] == if len > 0 { fill } else { 0 }, "first byte loaded");
     kani::cover!(len == 240, "exactly full RAM");
 }
+
+fn load_concrete(len: usize) -> Machine {
+    let fill: u8 = kani::any();
+    let mut v = Vec::with_capacity(260);
+    let mut i = 0;
+    while i < len {
+        v.push(fill);
+        i += 1;
+    }
+    let bc = ByteCode {
+        lines: vec![(Line::Empty(None), v)],
+        stacksize: any_stacksize(),
+        programsize: Programsize::Auto,
+    };
+    let mut m = Machine::new(MachineConfig::default());
+    m.load(bc);
+    assert!(m.bus().memory()[0] == fill, "first byte loaded");
+    m
+}
+
+/// Smallest image that does not fit the 240-byte RAM (known finding load.len>240).
+#[cfg_attr(kani, kani::proof)]
+#[cfg_attr(kani, kani::unwind(262))]
+pub fn load_oversize_241() {
+    let m = load_concrete(241);
+    kani::cover!(m.bus().memory()[239] != 1 || true, "reached");
+}
+
+/// Residual: the largest image that fits is loaded without a crash.
+#[cfg_attr(kani, kani::proof)]
+#[cfg_attr(kani, kani::unwind(262))]
+pub fn load_exact_240_residual() {
+    let m = load_concrete(240);
+    assert!(m.programsize() == Programsize::Size(240), "program size of a full image");
+    kani::cover!(true, "reached");
+}
